@@ -176,10 +176,12 @@ void run(Ctx &ctx, const std::string &w) {
 
     ACLIntRange data;
     for (const auto &l : c.lines) {
-        ConfigParser::SetCfgLine(xstrdup(l.c_str()));
+        char *line = xstrdup(l.c_str());
+        ConfigParser::SetCfgLine(line);
         data.parse();
+        ConfigParser::SetCfgLine(nullptr); // drops the parser's token copies; the line itself stays ours
+        xfree(line);
     }
-    ConfigParser::SetCfgLine(nullptr);
 
     long matched = 0, wrong = 0;
     bool small = true;
